@@ -7,7 +7,8 @@
                   by IPv4 clients (which it sees in IPv4-mapped form); lm = the IPv4 entries of its list
                   file are written in IPv4-mapped form.  Every record carries `v4`, the IPv4 addresses it names
      ev = "conn"  a client connected from `peer`
-     ev = "req"   request n on that connection: X-Forwarded-For (present, es), route type, uri ->
+     ev = "req"   request n on that connection: X-Forwarded-For (present, es; present2, es2 = a second
+                  X-Forwarded-For line, judged with DecideLines), route type, uri ->
                   res (result class seen by the client), fromCache (content was older than the file on disk)
      ev = "close" the client closed
    TLC replays the log with Blacklist's operators: every result must be one Decide allows (the verdict),
@@ -22,8 +23,10 @@ Rec == ndJsonDeserialize(IOEnv.TRACE)
 
 RangeOf(s) == { s[i] : i \in 1..Len(s) }
 TraceAddrs == UNION { RangeOf(Rec[i].list) \cup (IF Rec[i].peer = "" THEN {} ELSE {Rec[i].peer})
-                      \cup { Rec[i].es[j].a : j \in { j \in 1..Len(Rec[i].es) : Rec[i].es[j].k = 1 } } : i \in 1..Len(Rec) }
-TraceGarbage == UNION { { Rec[i].es[j].a : j \in { j \in 1..Len(Rec[i].es) : Rec[i].es[j].k = 0 } } : i \in 1..Len(Rec) }
+                      \cup { Rec[i].es[j].a : j \in { j \in 1..Len(Rec[i].es) : Rec[i].es[j].k = 1 } }
+                      \cup { Rec[i].es2[j].a : j \in { j \in 1..Len(Rec[i].es2) : Rec[i].es2[j].k = 1 } } : i \in 1..Len(Rec) }
+TraceGarbage == UNION { { Rec[i].es[j].a : j \in { j \in 1..Len(Rec[i].es) : Rec[i].es[j].k = 0 } }
+                        \cup { Rec[i].es2[j].a : j \in { j \in 1..Len(Rec[i].es2) : Rec[i].es2[j].k = 0 } } : i \in 1..Len(Rec) }
 
 VARIABLES l, cfg, cached, c, conn, bad, attributed, nattr, lenient, cachediv, nreq
 tvars == <<l, cfg, cached, c, conn, bad, attributed, nattr, lenient, cachediv, nreq>>
@@ -31,7 +34,7 @@ tvars == <<l, cfg, cached, c, conn, bad, attributed, nattr, lenient, cachediv, n
 TraceV4 == UNION { RangeOf(Rec[i].v4) : i \in 1..Len(Rec) }       \* the IPv4 addresses of the log
 
 B == INSTANCE Blacklist WITH Addrs <- TraceAddrs, Peers <- TraceAddrs, V4Addrs <- TraceV4, Duals <- BOOLEAN,
-                             ListForms <- BOOLEAN, Garbage <- TraceGarbage,
+                             ListForms <- BOOLEAN, NameCases <- {FALSE}, Garbage <- TraceGarbage,
                              Lists <- {}, MaxXff <- 0, Uris <- {}, Conns <- {1}, Dev <- {}
 
 NoConn == [open |-> FALSE, peer |-> "", n |-> 0]
@@ -59,10 +62,11 @@ Step(r) ==
          /\ conn' = NoConn
          /\ UNCHANGED <<cfg, cached, bad, attributed, nattr, lenient, cachediv, nreq>>
     [] r.ev = "req" ->
-         LET x       == [present |-> r.present, es |-> r.es]
+         LET x       == [present |-> r.present, nc |-> FALSE, es |-> r.es]
              key     == <<r.rt, r.uri>>
              warm    == key \in cached
-             allowed == B!Decide(cfg.mode, cfg.list, conn.peer, x)
+             x2      == [present |-> r.present2, nc |-> FALSE, es |-> r.es2]       \* a second X-Forwarded-For line, if any
+             allowed == B!DecideLines(cfg.mode, cfg.list, conn.peer, x, x2)
              model   == B!Model({}, cfg, conn.peer, x, r.rt, warm)
              wellformed == conn.open /\ r.peer = conn.peer /\ r.n = conn.n /\ r.rt \in B!RouteTypes
              ok      == /\ wellformed
